@@ -43,9 +43,10 @@ REQUIRED_REACH = {
     "quick": ["history_read", "reread", "construct_shared", "envelope_equivalence",
               "class:mutated_transforms", "class:mutated_response", "class:mode=cube",
               "class:mode=cubeset_tabbook", "class:mode=cubeset_ca0",
-              "class:mode=cubeset_numsum", "class:3d"],
+              "class:mode=cubeset_numsum", "class:3d", "class:means_pairwise_defined"],
     "thorough": ["history_read", "reread", "construct_shared", "envelope_equivalence",
-                 "thread_read", "class:mutated_transforms", "class:mutated_response"],
+                 "thread_read", "class:mutated_transforms", "class:mutated_response",
+                 "class:means_pairwise_defined"],
 }
 BATCH = 12
 UNIT_TIMEOUT_S = 90
@@ -142,7 +143,8 @@ def make_case(unit):
         if g.chance(0.5):
             cases.attach_insertions(g, facets, tr)
         spec = sim.CubeSpec(facets, w, ("mean",) if "numarr" in template else
-                            g.pick([(), ("mean",)]), None if "numarr" in template else g.num(N))
+                            g.pick([(), ("mean",), ("mean", "stddev"), ("mean", "stddev")]),
+                            None if "numarr" in template else g.num(N))
         if "numarr" not in template and "mean" not in spec.measures:
             spec.numvar = None
         _array_transforms(g, spec, tr)
@@ -222,8 +224,17 @@ def _entries(case, parts):
             out.append((j, "row_order", (int(ORDER_FORMAT.BOGUS_IDS),)))
         if hasattr(p, "column_order"):
             out.append((j, "column_order", (int(ORDER_FORMAT.BOGUS_IDS),)))
-            out.append((j, "pairwise_significance_t_stats", (0,)))
-            out.append((j, "pairwise_significance_p_vals", (0,)))
+            try:
+                ncols = int(p.shape[1])
+            except Exception:
+                ncols = 1
+            # every argument-taking accessor, for several selected columns: results of one
+            # family must not leak into another family or another column
+            for c in range(min(ncols, 3)):
+                for m in ("pairwise_significance_t_stats", "pairwise_significance_p_vals",
+                          "pairwise_significance_means_t_stats",
+                          "pairwise_significance_means_p_vals"):
+                    out.append((j, m, (c,)))
     for a in (CUBE_ATTRS if case["mode"] == "cube" else SET_ATTRS):
         out.append((-1, a, ()))
     return out
@@ -305,6 +316,8 @@ def check_case(case):
             continue
         got = _outcome(_read_entry(case, ob, parts, e))
         history.append(["read", k, e[0], e[1], list(e[2])])
+        if e[1].startswith("pairwise_") and "means" in e[1] and pristine[e][0] == "ok":
+            res.classes.append("means_pairwise_defined")
         n_reads += 1
         mon = "reread" if (k, e) in seen_reads else "history_read"
         seen_reads.add((k, e))
